@@ -645,6 +645,33 @@ func (db *DB) followLeaders(stream string, newSubscriber chan *tableWithOffsets,
 	var offsets []common.OffsetsBySource
 	partitions := make(map[string]*common.Partition)
 
+	// addSubscriber registers a table with the set of tables and partitions that
+	// we announce to the leaders. It builds a new partitions map (and copies the
+	// affected partition) rather than modifying the existing one, since a
+	// previously started doFollowLeaders may still be reading it.
+	addSubscriber := func(subscriber *tableWithOffsets) {
+		table := subscriber.t
+		os := subscriber.os
+		tables = append(tables, table)
+		offsets = append(offsets, os)
+		partitionKeysString, partitionKeys := sortedPartitionKeys(table.PartitionBy)
+		newPartitions := make(map[string]*common.Partition, len(partitions)+1)
+		for k, p := range partitions {
+			newPartitions[k] = p
+		}
+		partition := &common.Partition{Keys: partitionKeys}
+		if existing := partitions[partitionKeysString]; existing != nil {
+			partition.Keys = existing.Keys
+			partition.Tables = append(partition.Tables, existing.Tables...)
+		}
+		partition.Tables = append(partition.Tables, &common.PartitionTable{
+			Name:    table.Name,
+			Offsets: os,
+		})
+		newPartitions[partitionKeysString] = partition
+		partitions = newPartitions
+	}
+
 waitForTables:
 	for {
 		select {
@@ -658,22 +685,7 @@ waitForTables:
 			break waitForTables
 		case subscriber := <-newSubscriber:
 			db.log.Debugf("Got subscriber: %v", subscriber)
-			table := subscriber.t
-			os := subscriber.os
-			tables = append(tables, table)
-			offsets = append(offsets, os)
-			partitionKeysString, partitionKeys := sortedPartitionKeys(table.PartitionBy)
-			partition := partitions[partitionKeysString]
-			if partition == nil {
-				partition = &common.Partition{
-					Keys: partitionKeys,
-				}
-				partitions[partitionKeysString] = partition
-			}
-			partition.Tables = append(partition.Tables, &common.PartitionTable{
-				Name:    table.Name,
-				Offsets: os,
-			})
+			addSubscriber(subscriber)
 			// Got some tables, don't wait as long this time
 			timer.Reset(5 * time.Second)
 		}
@@ -692,8 +704,9 @@ waitForTables:
 			case <-stop:
 				return
 			case cancel <- true:
-				tables = append(tables, subscriber.t)
-				offsets = append(offsets, subscriber.os)
+				// Also announce the new table to the leaders, otherwise they only send
+				// us what our other tables need
+				addSubscriber(subscriber)
 			}
 		}
 	}
